@@ -41,6 +41,22 @@ how known structures are loaded"):
              loads use new type systems); an earlier strict load with an element of a then-missing type must have raised
              TypeNotFoundError.  In Coq the whole session of the object is run by the model (XmiLoadC17.session): every
              earlier load ends as observed (error kind / a CAS) and the last one is the observed load.
+
+Fourth wave (quantifier "all subsets of user types deleted from the type system": the subset may be ALL of them, and the one
+non-built-in type a TypeSystem() defines by itself, uima.tcas.DocumentAnnotation, is a type like the others - a type system
+made with add_document_annotation_type=False does not define it; clauses "a strict CAS refuses to index a structure of a
+foreign type", "stays lenient through every view handle", "without lenient=True raises", "with lenient=True ... exactly"):
+  subsets    extra picks per type system: every user type deleted (a.MyStr too), and / or uima.tcas.DocumentAnnotation
+             deleted (sc["no_docann"]: every type system object of the case, used or new, is made without it); both together
+             give a type system that defines built-in types only
+  documents  for those picks the CAS may hold a uima.tcas.DocumentAnnotation structure and plain uima.cas.TOP structures, and
+             in part of them the structures of deleted types are removed from the CAS before it is written ("pruned": a
+             document without any element of unknown type, possibly with empty views, so that the strict load succeeds)
+  foreign    the structures offered to the handles are now also instances of the DELETED types, made by the full type
+             system (and a uima.tcas.DocumentAnnotation of a default TypeSystem() when that type is deleted) - the foreign
+             types the property is about; and the strict CAS of the harness-filtered document (the reference load of the
+             filter clause) is offered the same structures through the same handles: every one must be refused (oracle)
+In Coq the type system of the loaded CAS is XmiLoadC17.loaded_ts (Cas.__init__: the one supplied, whatever it defines).
 """
 import json
 import os
@@ -75,13 +91,22 @@ RULE = (
     "document's CAS. In half of the cases the TypeSystem object of the observed load was used before for 1-2 loads of the "
     "same document (lenient or strict) while further user types (closed under subtypes and ranges, preferring types with "
     "instances) were missing, which were then created in the same object; in a fifth of those the earlier load saw the same "
-    "types (plain reuse). Non-trivial: at least one element of the document has a deleted type."
+    "types (plain reuse). Fourth wave, extra picks per type system: in 45% of them EVERY user type is deleted (a.MyStr too), "
+    "in 70% of those and in a further 20% (any earlier pick) uima.tcas.DocumentAnnotation is deleted as well (every type system "
+    "object of the case is made with add_document_annotation_type=False) - both together: a type system with built-in types "
+    "only; for these picks the CAS gets, in half of the cases, a uima.tcas.DocumentAnnotation structure and 0-2 plain "
+    "uima.cas.TOP structures, and in 60% (all deleted) / 25% the structures of deleted types are removed before writing, so "
+    "that the document has no element of unknown type (possibly only empty views) and the strict load succeeds. In every "
+    "case the structures offered to the handles are also instances of a deleted type made by the full type system "
+    "(and a DocumentAnnotation of a default TypeSystem() when deleted), and the strict CAS of the harness-filtered document is "
+    "offered the same structures through the same handles. Non-trivial: at least one element of the document has a deleted type."
 )
 TRUSTED = [
     "Coq 8.16.1 kernel and vm_compute; theorems in Props/C17.v closed under the global context (parse_flt universally quantified)",
     "hand-written model coq/XmiLoad.v of the reader's lenient branch, member skipping, Cas.add guard and Cas._copy; "
     "coq/XmiLoadC17.v of the entry point's three source branches, of the two id generators of the loaded CAS and of a "
-    "TypeSystem object serving several loads with create_type in between (its state is the list of defined types)",
+    "TypeSystem object serving several loads with create_type in between (its state is the list of defined types) and of "
+    "the type system Cas.__init__ keeps (the supplied one; only None is replaced)",
     "harness/xmlabs.py (xml.etree only) for bytes <-> abstract documents and for the independent filtering of the document",
     "scen.schema_of for the reduced type system; Python float(str) as a table per case",
     "the document under test is cassis' own to_xmi output (writer correctness is C01/C04)",
@@ -93,6 +118,8 @@ ASSUMPTIONS = [
     "xmi:ids in documents are decimal numbers",
 ]
 T = scen.T
+DOCANN = "uima.tcas.DocumentAnnotation"
+MYSTR = "a.MyStr"
 ERR = {"TypeNotFoundError": "ETypeNotFound", "KeyError": "EKey", "ValueError": "EValue", "RuntimeError": "ERuntime",
        "TypeError": "EType", "AttributeError": "EAttribute", "IndexError": "EIndex"}
 _CACHE = {}
@@ -149,6 +176,35 @@ def clear_dangling(cspec, deleted):
     return c
 
 
+def prune(cspec, gone):
+    """The CAS without the structures of the types `gone` (references to them cleared, memberships removed)."""
+    c = clear_dangling(cspec, gone)
+    dropped = {o["o"] for o in c["objs"] if o["type"] in gone}
+    c["objs"] = [o for o in c["objs"] if o["o"] not in dropped]
+    c["members"] = [m for m in c["members"] if m[1] not in dropped]
+    return c
+
+
+def with_builtin_structures(fr, cspec, docann, tops):
+    """The CAS with a uima.tcas.DocumentAnnotation over the text of one view and / or plain uima.cas.TOP structures, indexed."""
+    c = json.loads(json.dumps(cspec))
+    lab = max([o["o"] for o in c["objs"]] + [0])
+    free = max([o["id"] for o in c["objs"] if o.get("id") is not None] + [len(c["views"])]) + 1
+    if docann:
+        vi = fr.randrange(len(c["views"]))
+        lab, free = lab + 1, free + fr.randint(1, 3)
+        c["objs"].append({"o": lab, "type": DOCANN, "id": free, "slots": {
+            "sofa": {"sofa": c["views"][vi]["name"]}, "begin": {"i": 0}, "end": {"i": len(c["views"][vi]["text"] or [])},
+            "language": fr.choice([None, {"s": "en"}, {"s": "x-unspecified"}])}})
+        c["members"].append([vi, lab])
+    for _ in range(tops):
+        lab, free = lab + 1, free + fr.randint(1, 3)
+        c["objs"].append({"o": lab, "type": scen.TOP, "id": free, "slots": {}})
+        for vi in fr.sample(range(len(c["views"])), fr.randint(1, len(c["views"]))):
+            c["members"].append([vi, lab])
+    return c
+
+
 def filter_doc(doc, schema_reduced):
     """Independent of cassis: drop the elements whose type the reduced schema does not define, and their member ids."""
     gone, keep = set(), []
@@ -197,6 +253,27 @@ def _load(cassis, data, ts, lenient, source="file", trusted=False):
                 pass
 
 
+def build_ts(cassis, tspec, no_docann=False):
+    """scen.build_ts, or the same types in a type system made without the implicit uima.tcas.DocumentAnnotation."""
+    if not no_docann:
+        return scen.build_ts(cassis, tspec)
+    ts = cassis.TypeSystem(add_document_annotation_type=False)
+    grow_ts(ts, tspec, {t["name"] for t in tspec})
+    return ts
+
+
+def schema_of(cassis, tspec, no_docann=False):
+    """scen.schema_of (computed from the specification), without uima.tcas.DocumentAnnotation when it is deleted."""
+    schema = scen.schema_of(cassis, tspec)
+    if no_docann:
+        schema = {n: v for n, v in schema.items() if n != DOCANN}
+    return schema
+
+
+def gone_types(sc):
+    return set(sc["deleted"]) | ({DOCANN} if sc.get("no_docann") else set())
+
+
 def grow_ts(ts, tspec, names):
     """create_type (+ features) for the types of tspec called `names`, in the TypeSystem object ts, in tspec order."""
     new = [t for t in tspec if t["name"] in names]
@@ -214,13 +291,14 @@ def ts_with_history(cassis, sc, data, doc):
     Returns the object and, per earlier load, [error kind | None, number of elements of a type missing at that time]."""
     deleted = set(sc["deleted"])
     hist = sc.get("hist") or []
+    nd = bool(sc.get("no_docann"))
     if not hist:
-        return scen.build_ts(cassis, reduce_tspec(sc["tspec"], deleted)), []
-    ts = scen.build_ts(cassis, reduce_tspec(sc["tspec"], deleted | set(hist[0]["absent"])))
+        return build_ts(cassis, reduce_tspec(sc["tspec"], deleted), nd), []
+    ts = build_ts(cassis, reduce_tspec(sc["tspec"], deleted | set(hist[0]["absent"])), nd)
     stages = []
     for i, st in enumerate(hist):
         missing = deleted | set(st["absent"])
-        schema_i = scen.schema_of(cassis, reduce_tspec(sc["tspec"], missing))
+        schema_i = schema_of(cassis, reduce_tspec(sc["tspec"], missing), nd)
         n_unknown = sum(1 for e in doc["elems"] if xmlabs.kind(e) == "FS" and c05.type_of_elem(e) not in schema_i)
         k, v = _load(cassis, data, ts, st["lenient"])
         stages.append([v if k == "err" else None, n_unknown])
@@ -281,8 +359,14 @@ def _outcome(cassis, kind, val):
     return {"canon": c, "later": _later(cassis, val)}
 
 
-def _adds(cassis, cas, ts_full_names, sc):
-    """Add a structure of a foreign type through several handles; the FS is fresh for every attempt."""
+def foreign_deleted(sc):
+    """Deleted types whose instances are offered to the handles: one user type, and the DocumentAnnotation."""
+    return [n for n in sorted(sc["deleted"]) if n != MYSTR][-1:] + ([DOCANN] if sc.get("no_docann") else [])
+
+
+def _adds(cassis, cas, ts_full_names, sc, ts_full=None):
+    """Add a structure of a foreign type through several handles; the FS is fresh for every attempt.  Foreign types: names
+    no type system of the case knows, and (fourth wave) the deleted types themselves, as the full type system defines them."""
     foreign = cassis.TypeSystem()
     names = ["zz.other.Foreign"] + sc.get("foreign_short", [])
     ftypes = []
@@ -290,6 +374,9 @@ def _adds(cassis, cas, ts_full_names, sc):
         if n in ts_full_names:
             continue
         ftypes.append(foreign.create_type(n, scen.TOP))
+    for n in (foreign_deleted(sc) if ts_full is not None else []):
+        if n not in ts_full_names:
+            ftypes.append(ts_full.get_type(n))
     views = [s.sofaID for s in cas.sofas]
     paths = [[]] + [[v] for v in views[:2]] + ([[views[0], views[-1]]] if views else []) + [["+fresh_view"], ["+fresh_view", views[0]]]
     out = []
@@ -328,7 +415,8 @@ def run_impl(cassis, sc):
         data = xmlabs.write(d2)
         doc = xmlabs.parse(data)
     red = reduce_tspec(sc["tspec"], set(sc["deleted"]))
-    schema = scen.schema_of(cassis, red)
+    nd = bool(sc.get("no_docann"))
+    schema = schema_of(cassis, red, nd)
     fdoc, gone = filter_doc(doc, schema)
     lenient = sc["lenient"]
     source, trusted = sc.get("source", "file"), bool(sc.get("trusted"))
@@ -337,19 +425,21 @@ def run_impl(cassis, sc):
     main = _outcome(cassis, k, v)
     fresh = None
     if sc.get("hist"):                                  # the same load through a new type system with the same types
-        k0, v0 = _load(cassis, data, scen.build_ts(cassis, red), lenient, source, trusted)
+        k0, v0 = _load(cassis, data, build_ts(cassis, red, nd), lenient, source, trusted)
         fresh = _outcome(cassis, k0, v0)
-    adds = _adds(cassis, v, {t["name"] for t in red} | set(scen.builtin_table(cassis)), sc) if k == "ok" else []
-    k2, v2 = _load(cassis, xmlabs.write(fdoc), scen.build_ts(cassis, red), False)
+    defined = {t["name"] for t in red} | (set(scen.builtin_table(cassis)) - ({DOCANN} if nd else set()))
+    adds = _adds(cassis, v, defined, sc, ts_full) if k == "ok" else []
+    k2, v2 = _load(cassis, xmlabs.write(fdoc), build_ts(cassis, red, nd), False)
     filtered = _outcome(cassis, k2, v2)
-    k3, v3 = _load(cassis, data, scen.build_ts(cassis, red), not lenient, source, trusted)
+    fadds = _adds(cassis, v2, defined, sc, ts_full) if k2 == "ok" else []     # the strict CAS of the filtered document
+    k3, v3 = _load(cassis, data, build_ts(cassis, red, nd), not lenient, source, trusted)
     other = _outcome(cassis, k3, v3)
     names = c05.used_names(schema, doc)
     for t in red:                                   # every user type: short-name lookups must see them all
         if t["name"] not in names:
             names.append(t["name"])
     top = max(doc["elems"], key=lambda e: int(xmlabs.attr(e, "xmi:id") or -1) if xmlabs.kind(e) in ("FS", "Sofa") else -1)
-    return {"main": main, "filtered": filtered, "other": other, "adds": adds, "doc": doc, "fresh": fresh, "stages": stages,
+    return {"main": main, "filtered": filtered, "other": other, "adds": adds, "fadds": fadds, "doc": doc, "fresh": fresh, "stages": stages,
             "top_dropped": xmlabs.kind(top) == "FS" and c05.type_of_elem(top) not in schema,
             "dropped_kids": any(xmlabs.kind(e) == "FS" and e["kids"] and c05.type_of_elem(e) not in schema for e in doc["elems"]),
             "n_unknown": len(gone) if gone else
@@ -429,6 +519,12 @@ def oracle(cassis, sc, obs):
             return "lenient CAS refused a structure of foreign type %s through handle %s: %s" % (tn, path, out)
         if not sc["lenient"] and out != "RuntimeError":
             return "strict CAS did not refuse a structure of foreign type %s through handle %s (outcome %s)" % (tn, path, out)
+    for path, tn, out in obs.get("fadds") or []:
+        if tn == "?":
+            return "handle %s of the strictly loaded filtered document could not be obtained: %s" % (path, out)
+        if out != "RuntimeError":
+            return ("strict CAS did not refuse a structure of foreign type %s through handle %s (outcome %s): the document without "
+                    "the structures of undefined types, loaded without lenient" % (tn, path, out))
     return None
 
 
@@ -462,7 +558,7 @@ def render(sc, obs):
 
 def nontrivial(sc):
     types = {o["type"] for o in sc["cspec"]["objs"]}
-    return bool(types & set(sc["deleted"]))
+    return bool(types & gone_types(sc))
 
 
 def generate(rng, tier):
@@ -474,6 +570,7 @@ def generate(rng, tier):
         sub = rng.randrange(1 << 30)
         r = random.Random(sub)
         hr = random.Random(sub ^ 0x17C3)      # own stream for the third-wave choices: everything else stays as it was
+        fr = random.Random(sub ^ 0x4A11)      # ... and one for the fourth-wave picks, which come after the old ones
         tspec = scen.gen_tspec(r, n_types=r.choice([3, 5, 8]), max_feats=r.choice([2, 4]))
         kids_type = None
         if r.random() < 0.7:     # a string array / list written as nested child elements: what a dropped element may carry
@@ -515,6 +612,29 @@ def generate(rng, tier):
                        "order": order, "oseed": oseed, "foreign_short": [s for s in foreign_short if s not in user],
                        "source": r.choice(["file", "str", "path"]), "trusted": r.random() < 0.5, "noinit": noinit,
                        "hi_ids": hi_ids, "hist": gen_hist(hr, tspec, cs, user, set(deleted))}
+        # fourth wave: ALL user types deleted and / or uima.tcas.DocumentAnnotation deleted (both: built-in types only)
+        extra = []
+        if fr.random() < 0.45:
+            extra.append((sorted(user + [MYSTR]), fr.random() < 0.7))
+        if fr.random() < 0.2:
+            extra.append((fr.choice(picks), True))
+        for deleted, no_docann in extra:
+            gone = set(deleted) | ({DOCANN} if no_docann else set())
+            cs = with_builtin_structures(fr, cspec, fr.random() < 0.5, fr.choice([0, 0, 1, 2]))
+            pruned = fr.random() < (0.6 if len(deleted) > len(user) else 0.25)
+            cleared = clear_dangling(cs, gone)
+            dangling = (not pruned) and fr.random() < 0.2 and cleared != cs
+            cs = prune(cs, gone) if pruned else cs if dangling else cleared
+            hi_ids = bool(gone) and not pruned and fr.random() < 0.5
+            if hi_ids:
+                cs = raise_dropped_ids(cs, gone)
+            noinit, order, oseed = fr.random() < 0.25, fr.choice([None, None, "shuffle", "sofa_first", "reverse", "desc_id"]), fr.randrange(1 << 30)
+            for lenient in (True, False):
+                yield {"tspec": tspec, "cspec": cs, "deleted": deleted, "lenient": lenient, "dangling": dangling,
+                       "order": order, "oseed": oseed, "foreign_short": [s for s in foreign_short if s not in user],
+                       "source": fr.choice(["file", "str", "path"]), "trusted": fr.random() < 0.5, "noinit": noinit,
+                       "hi_ids": hi_ids, "hist": gen_hist(fr, tspec, cs, user, set(deleted)), "no_docann": no_docann,
+                       "pruned": pruned}
 
 
 def gen_hist(hr, tspec, cspec, user, deleted):
@@ -549,7 +669,7 @@ def shrink_candidates(sc):
                 c = json.loads(json.dumps(sc))
                 c["hist"] = h
                 yield c
-    for key, plain in (("order", None), ("noinit", False), ("source", "file"), ("trusted", False)):
+    for key, plain in (("order", None), ("noinit", False), ("source", "file"), ("trusted", False), ("no_docann", False)):
         if sc.get(key) not in (None, plain):
             c = json.loads(json.dumps(sc))
             c[key] = plain
@@ -609,7 +729,23 @@ def distribution(scenarios, observations):
             "types_created_after_a_load": sum(1 for s in scenarios if any(st["absent"] for st in s.get("hist") or [])),
             "earlier_load_met_then_missing_type": sum(1 for o in observations if o and any(n for _e, n in o.get("stages") or [])),
             "earlier_load_outcomes": _count(str(e) for o in observations if o for e, _n in o.get("stages") or []),
-            "short_name_collisions": sum(1 for s in scenarios if any(t["name"] == "T0" for t in s["tspec"]))}
+            "short_name_collisions": sum(1 for s in scenarios if any(t["name"] == "T0" for t in s["tspec"])),
+            "all_user_types_deleted": sum(1 for s in scenarios if _all_deleted(s)),
+            "without_document_annotation_type": sum(1 for s in scenarios if s.get("no_docann")),
+            "built_in_types_only": sum(1 for s in scenarios if _all_deleted(s) and s.get("no_docann")),
+            "built_in_types_only_strict_load_succeeded": sum(1 for s, o in zip(scenarios, observations) if o and _all_deleted(s)
+                                                             and s.get("no_docann") and not s["lenient"] and "canon" in o["main"]),
+            "document_annotation_element_of_undefined_type": sum(1 for s in scenarios if s.get("no_docann") and any(
+                o["type"] == DOCANN for o in s["cspec"]["objs"])),
+            "pruned_documents": sum(1 for s in scenarios if s.get("pruned")),
+            "documents_with_empty_views_only": sum(1 for s in scenarios if not s["cspec"]["members"]),
+            "adds_of_deleted_types": sum(1 for s, o in zip(scenarios, observations) if o for a in o["adds"] + (o.get("fadds") or [])
+                                         if a[1] in gone_types(s)),
+            "adds_to_filtered_strict_cas": sum(len(o.get("fadds") or []) for o in observations if o)}
+
+
+def _all_deleted(s):
+    return {t["name"] for t in s["tspec"]} <= set(s["deleted"])
 
 
 MANIFEST = {
